@@ -150,13 +150,10 @@ func runWT(c WTCase) *pbt.Violation {
 	if _, v := served(next(100, true)); v != nil {
 		return v
 	}
-	maxAfter, maxWindow, maxTimeout := 0, 0, 0
+	maxAfter, maxTimeout := 0, 0
 	for _, a := range stalledCons {
 		if a.spec.StallAt > maxAfter {
 			maxAfter = a.spec.StallAt
-		}
-		if a.spec.Window > maxWindow {
-			maxWindow = a.spec.Window
 		}
 	}
 	for _, k := range c.Cons {
@@ -178,8 +175,20 @@ func runWT(c WTCase) *pbt.Violation {
 			return v
 		}
 	}
-	// fill every receive window: from now on a write is pending for each stalled consumer
-	for n := 0; n < maxWindow/600+3; n++ {
+	// fill every receive window (seen at the transport: a small write queue may drop frames while lal's writer goroutine
+	// lags): from then on the next frame lal queues for a stalled consumer makes its writer block in a write
+	filled := func() bool {
+		for _, a := range stalledCons {
+			if a.conn.Pending() < a.spec.Window && !a.conn.PeerGone() {
+				return false
+			}
+		}
+		return true
+	}
+	for n := 0; n < 3 || !filled(); n++ {
+		if n > 300 {
+			lalclient.Harness("write-timeout: receive windows not filled after %d frames", n)
+		}
 		if _, v := served(next(700, false)); v != nil {
 			return v
 		}
